@@ -9133,13 +9133,6 @@ class SVG(Group):
                     style += styles["*"]
                 if tag in styles:  # selector type
                     style += styles[tag]
-                if SVG_ATTR_ID in attributes:  # Selector id #id
-                    svg_id = attributes[SVG_ATTR_ID]
-                    css_tag = "#%s" % svg_id
-                    if css_tag in styles:
-                        if len(style) != 0:
-                            style += ";"
-                        style += styles[css_tag]
                 if SVG_ATTR_CLASS in attributes:  # Selector class .class
                     for svg_class in attributes[SVG_ATTR_CLASS].split(" "):
                         css_tag = ".%s" % svg_class
@@ -9147,6 +9140,7 @@ class SVG(Group):
                             if len(style) != 0:
                                 style += ";"
                             style += styles[css_tag]
+                    for svg_class in attributes[SVG_ATTR_CLASS].split(" "):
                         css_tag = "%s.%s" % (
                             tag,
                             svg_class,
@@ -9155,6 +9149,13 @@ class SVG(Group):
                             if len(style) != 0:
                                 style += ";"
                             style += styles[css_tag]
+                if SVG_ATTR_ID in attributes:  # Selector id #id, highest selector specificity
+                    svg_id = attributes[SVG_ATTR_ID]
+                    css_tag = "#%s" % svg_id
+                    if css_tag in styles:
+                        if len(style) != 0:
+                            style += ";"
+                        style += styles[css_tag]
                 # Split style element into parts; priority highest
                 if SVG_ATTR_STYLE in attributes:
                     if len(style) != 0:
